@@ -1,9 +1,12 @@
 """C17 -- custody: guarded funds leave only with the required approvals.
 Hand-written Coq model of the custody part of the ante decorator + the 16 custody handlers + the two
-bank send paths (Model/Custody.v), theorems over all states / histories (Proofs/Custody.v,
-Properties/C17.v), and a differential run: the REAL CustodyDecorator + msg servers are run on directed
-and random histories (harness/cmd/c17); every step is compared with the model inside Coq and the
-decidable spec checker (Model/C17Check.v, written from the property text) is evaluated on the real
+bank send paths (Model/Custody.v), parameterised by a variant (five repaired places, patches under
+fixes/C17-*.patch; the harness probes which variant the tree implements).  Theorems over all states /
+histories (Proofs/Custody.v, Properties/C17.v): clauses that hold on every variant, full-strength
+theorems on the repaired variants incl. soundness of the whole spec checker, refutations with
+witnesses on the unrepaired ones.  Differential run: the REAL CustodyDecorator + msg servers are run on
+directed and random histories (harness/cmd/c17); every step is compared with the model inside Coq and
+the decidable spec checker (Model/C17Check.v, written from the property text) is evaluated on the real
 observations.  A violation's signature is the checker's clause:  clause:message-type[:feature]."""
 import json, os
 
@@ -40,13 +43,14 @@ def report(R, viol, cases, seen):
 
 
 def run(R):
-    R.trusted += ["hand-written model Model/Custody.v of app/ante/ante.go CustodyDecorator (custody part) + x/custody/keeper/msg_server.go + bank send/multi-send, validated step by step against the real code in Coq on every run",
+    R.trusted += ["hand-written model Model/Custody.v of app/ante/ante.go CustodyDecorator (custody part) + x/custody/keeper/msg_server.go + bank send/multi-send, validated step by step against the real code in Coq on every run; the model variant (5 bits) is selected by probe transactions on the real code",
+                  "time.ParseDuration is modelled on the limit strings the harness uses (\"1h\", \"90s\", \"0s\", unparsable ones)",
                   "harness canonical renaming (accounts -> integers, sha256 digests of the secrets -> tokens, tx hash -> first 8 characters): injective on the finite sets used; the digest of OldKey is computed by the harness (H is a free function in the theorems)",
                   "no axioms: every theorem of Properties/C17.v is closed under the global context"]
     R.assume += ["KV store / protobuf round trip of the custody records is as observed through the keeper getters (an emptied map reads back as a record with an empty map)",
-                 "one coin denomination (the default one) for amounts and rewards; uint64 quantities below 2^63 (no wrap-around modelled)",
+                 "three coin denominations (integers, default = 0); uint64 quantities below 2^63 (no wrap-around modelled)",
                  "transactions are atomic (ante + messages committed together or not at all) as in baseapp.runTx; gas, fees and signatures are outside this property (C02/C09)",
-                 "readings: a custodian is an address whose map entry is true; the key requirement applies to accounts whose custody is enabled; an absent whitelist/limit record restricts nothing; a password matches if it or its sha256 digest equals the password of the request; the limit clause only asks that a single send above the limit amount is refused (no wall clock)"]
+                 "readings: a custodian is an address whose map entry is true; the key requirement applies to accounts whose custody is enabled; an absent whitelist/limit record and a limit entry emptied by RemoveFromLimits restrict nothing; a password matches if it or its sha256 digest equals the password of the request; the limit clause only asks that a single send above the limit amount is refused"]
     R.coq_files(FILES)
     R.coq_property()
     R.audit()
@@ -63,7 +67,8 @@ def run(R):
         report(R, viol, cases, seen)
         R.samples = [slim(cases[0]), slim(cases[len(cases) // 2])]
         R.coverage.update({"traces_validated_against_impl": total, "transactions": steps, "input_distribution": dist,
-                           "clauses_checked": ["key", "only_custodians", "vote_once", "threshold", "password", "blocked", "whitelist", "limits", "outflow", "overpaid", "release", "not_atomic", "unmodelled_state"]})
+                           "model_variant_probed": dist.get("variant"),
+                           "clauses_checked": ["key", "only_custodians", "vote_once", "threshold", "password", "blocked", "whitelist", "limits", "outflow", "release", "not_atomic", "unmodelled_state"]})
     # a broken proof / correspondence: widen the search for a concrete failing input
     if R.broken and not [v for v in R.violations if v["sig"] not in known_sigs(R)]:
         for s in range(100, 103):
@@ -75,7 +80,7 @@ def run(R):
                 report(R, viol2, cases2, seen)
                 if [v for v in R.violations if v["sig"] not in known_sigs(R)]:
                     break
-    R.finish(level="proof", technique="Coq proof over a hand-written model of the custody ante decorator + handlers; differential run of the real code evaluated in Coq step by step; Coq spec checker on the real observations",
+    R.finish(level="proof", technique="Coq proof over a hand-written, variant-parameterised model of the custody ante decorator + handlers (incl. soundness of the spec checker on the repaired variants); differential run of the real code evaluated in Coq step by step; Coq spec checker on the real observations",
              extra={"evaluations": total})
 
 
